@@ -74,7 +74,7 @@ func (P) exec(line string) string {
 }
 
 func (P) Generate(g *core.Gen) {
-	for i := g.N(600, 6000); i > 0; i-- {
+	for i := g.N(2400, 12000); i > 0; i-- {
 		kind := "imm"
 		if i%2 == 0 {
 			kind = "mut"
